@@ -219,6 +219,9 @@ int main(int argc, char** argv)
     if (big) product("late", X2, 2);
     // assumevalid block on a competing branch at the same height as X
     { Scen s; s.name = "side/av-on-other-branch-same-height"; s.xchain = "side"; s.x = X1; s.avchain = "clean"; s.a = 2300; s.headers_to = X1 + 5; s.rival = "clean"; s.rival_headers_to = 2401; s.blocks_to = X1 + 5; add(s); }
+    // X on the best-header chain, assumevalid block on a shorter competing branch (above X's height / at X's height):
+    // every condition except "X is an ancestor of the assumevalid block" holds
+    for (int a : {2200, X1 + 1, X1}) { Scen s; s.name = "early/av-on-shorter-rival-branch-at-" + std::to_string(a); s.xchain = "early"; s.x = X1; s.avchain = "rival"; s.a = a; s.headers_to = 2401; s.rival = "rival"; s.rival_headers_to = 2300; s.blocks_to = X1 + 30; add(s); }
     // whole chain delivered through a skipped X
     { Scen s; s.name = "early/full-chain-delivered"; s.xchain = "early"; s.x = X1; s.avchain = "early"; s.a = 2300; s.headers_to = 2401; s.blocks_to = 2401; add(s); }
     // controls: valid script at X under skip and under full verification
